@@ -402,6 +402,22 @@ impl Sim {
             }
         }
         let before = &self.snaps[w];
+        // a live entity's marker is never replaced or lost: marking keeps an existing marker and a
+        // load updates a carrier in place under the same id
+        for (e, b) in before.iter() {
+            if let (Some(old), Some(a)) = (b.marker, after.get(e)) {
+                if a.marker != Some(old) {
+                    return Err(v(
+                        &["C15"],
+                        "marker-stable",
+                        format!(
+                            "world {}: live entity {:?} carried marker id {} before this step and carries {:?} after it",
+                            w, e, old, a.marker
+                        ),
+                    ));
+                }
+            }
+        }
         let mut new = vec![];
         for e in after.keys() {
             if !before.contains_key(e) {
